@@ -30,7 +30,8 @@ impl Transport {
 		});
 		Self {
 			position: if reverse {
-				num_frames - 1 - start_position
+				// a start position at or past the end starts at the first frame
+				num_frames.saturating_sub(1).saturating_sub(start_position)
 			} else {
 				start_position
 			},
